@@ -23,7 +23,7 @@ ASSUME = ['operator new never fails', 'the session has no persister, no loggers 
 def build(ctx, name='sess_in.c', roots=None):
     # sess_in.cpp #includes runtime/session.cpp and shims/sess_common.cpp: the latter's content enters the cache key through a define
     ll = ctx.build_ir('sess_in.cpp', 'cut', extra=['-DVF_DEP_HASH=0x' + file_hash(VERIF + '/shims/sess_common.cpp')])
-    return ctx.translate(ll, roots or ROOTS, name, stubfiles=['common.stubs', 'sess.stubs'], models=['cxx.c', 'stubs.c', 'sess_env.c', 'sess_msg.c'], provided=PROVIDED + ['vf_gen_token'])
+    return ctx.translate(ll, roots or ROOTS, name, stubfiles=['common.stubs', 'sess.stubs'], models=['cxx.c', 'stubs.c', 'sess_env.c', 'sess_msg.c'], provided=PROVIDED + ['vf_gen_token'], opts=['--rpo'])
 
 # ---------------------------------------------------------------- native replay (real Session over libfix8.so + the repo's FIX4.2 unit-test schema)
 def replay_exe(ctx):
